@@ -45,7 +45,7 @@ class C13(PipelineCheck):
             'non-trivial: >= 1 fault fired and >= 2 keys or >= 4 events; distinct = distinct (program, schedule, plan)')
     assumptions = ['the handler sits directly behind the failing operator (what the statement specifies)',
                    'with handler "none" the failing operator is the last one of its pipeline, so the mux error reaches the demultiplexer directly']
-    probe_names = ('falsy_exception_raised', 'fault:first', 'fault:last', 'fault:consecutive', 'fault:all_of_a_key', 'handler:ignore', 'handler:error_map',
+    probe_names = ('exception_families', 'falsy_exception_raised', 'fault:first', 'fault:last', 'fault:consecutive', 'fault:all_of_a_key', 'handler:ignore', 'handler:error_map',
                    'handler:router', 'handler:none', 'op:map', 'op:starmap', 'op:filter', 'op:scan', 'stateful_downstream', 'keys>=3',
                    'wrapped_in_window')
 
@@ -140,7 +140,7 @@ class C13(PipelineCheck):
                 break
         plan = [list(x) for x in sorted(set(tuple(x) for x in plan))]
         case = {'program': program, 'events': events, 'end': 'complete', 'style': style, 'handler': handler,
-                'faults': {SITE: plan}, 'pattern': pattern, 'falsy': rng.random() < 0.25}
+                'faults': {SITE: plan}, 'pattern': pattern, 'falsy': rng.choice([False, False, False, True, 'types', 'types'])}
         if not self.valid(case):
             case['program'] = [{'op': 'group_by', 'key': 'rk', 'inner': [dict(op)] + ([{'op': handler}] if handler not in ('none', 'error_map') else
                                                                                  ([{'op': 'error_map', 'value': {'rec': 'rec', 'int': -1, 'list': []}[ot]}]
@@ -154,7 +154,7 @@ class C13(PipelineCheck):
         plan = set(tuple(x) for x in case['faults'].get(SITE, []))
         handler = case['handler']
         fail = {SITE: sorted(plan)}
-        falsy = bool(case.get('falsy'))
+        falsy = case.get('falsy') or False
         ctx, final, escaped = run_mux(program, events, 'complete', monitor=False, fail=fail, extra={'falsy_faults': falsy})
         out.shape = (shape_of(case), tuple(sorted(plan)), handler)
         out.steps = len(events) + 1
@@ -206,7 +206,8 @@ class C13(PipelineCheck):
                     by_idx.setdefault(good[j2] if j2 != END else END, []).append(cv)
                 for j, v in enumerate(vals):
                     if (v.k, v.n) in plan:
-                        ename = 'EmptyFault' if falsy and (v.k + v.n) % 2 == 0 else 'InjectedFault'
+                        from rxsim.core import fault_class
+                        ename = fault_class(falsy, v.k, v.n).__name__
                         merged.append(('E', seq_of(j), ('exc', ename, (('s', SITE), v.k, v.n))))
                     for cv in by_idx.get(j, ()):
                         merged.append(('N', seq_of(j), cv))
@@ -287,6 +288,8 @@ class C13(PipelineCheck):
         p['handler:' + handler] += 1
         if falsy and fired:
             p['falsy_exception_raised'] += 1
+        if falsy == 'types' and fired:
+            p['exception_families'] += 1
         p['op:' + opn['op']] += 1
         if fired:
             p['fault:' + case.get('pattern', '?')] += 1
